@@ -477,7 +477,9 @@ void prop(Src& s, Ctx& ctx) {
     const Abs stream_end = segs.back().second;
 
     const std::string tag = mode == 0 ? "C19:AckTracker" : "C19:Flow";
-    ctx.hash(mode); ctx.hash(lay.wrapper * 16 + lay.wire * 8 + lay.opts); ctx.hash(K); ctx.hash(isn); ctx.hash(misc);  // (profiles only steer the history, which is hashed below)
+    ctx.hash(mode); ctx.hash(lay.wrapper * 16 + lay.wire * 8 + lay.opts); ctx.hash(K); ctx.hash(isn);
+    // only the flags that are effective in this mode (profiles only steer the history, which is hashed below)
+    ctx.hash((mode == 0 && late_sack_enable) * 1 + (mode == 1 && hs_ack_lost) * 2 + (mode == 1 && syn_garbage_ack) * 4 + with_fin * 8 + with_payload * 16);
     for (unsigned i = 0; i < nseg; ++i) ctx.hash(sizes[i]);
 
     if (ctx.logging()) {
